@@ -1,11 +1,11 @@
 #!/bin/bash
-# benignin.sh <pid>: take a finished benign-change agent's deliverables into benign/ and test them
-p=$1
-for v in P Q; do
-  mkdir -p /verif/benign/$p-$v && cp /tmp/benign-$p/BENIGN/$v/* /verif/benign/$p-$v/ || exit 1
+# benignin.sh <pid> [tag V1 V2]: take a finished benign-change agent's deliverables into benign/ and test them
+p=$1; tag=${2:-}; v1=${3:-P}; v2=${4:-Q}
+for v in $v1 $v2; do
+  mkdir -p /verif/benign/$p-$v && cp /tmp/benign-$p$tag/BENIGN/$v/* /verif/benign/$p-$v/ || exit 1
 done
-git -C /repo worktree remove --force /tmp/benign-$p 2>/dev/null
-for v in P Q; do
+git -C /repo worktree remove --force /tmp/benign-$p$tag 2>/dev/null
+for v in $v1 $v2; do
   timeout 2400 python3 /verif/lib/benigntest.py /verif/benign/$p-$v 2>&1 | tail -1 | python3 -c "
 import sys,json
 r=json.loads(sys.stdin.read()); print(r['benign'], 'applies=',r.get('patch_applies'),'suite=',r.get('suite_passes_patched'),'ALARM=',r.get('alarm'),'kind',r.get('kind'), [l[-110:] for l in r.get('check_lines',[])][:1], str(r.get('detail'))[:200])"
